@@ -34,6 +34,13 @@ opaque!(BusListener);
 //@item core/src/message/query_service_version.rs struct QueryServiceVersion
 //@item core/src/message/query_service_version_reply.rs enum QueryServiceVersionResult
 //@item core/src/message/query_service_version_reply.rs struct QueryServiceVersionReply
+//@item core/src/message/query_service_info.rs struct QueryServiceInfo
+//@item core/src/message/query_service_info_reply.rs enum QueryServiceInfoResult
+//@item core/src/message/query_service_info_reply.rs struct QueryServiceInfoReply
+//@item core/src/message/register_introspection.rs struct RegisterIntrospection
+//@item core/src/message/query_introspection.rs struct QueryIntrospection
+//@item core/src/message/query_introspection_reply.rs enum QueryIntrospectionResult
+//@item core/src/message/query_introspection_reply.rs struct QueryIntrospectionReply
 //@item core/src/message/sync.rs struct Sync
 //@item core/src/message/sync_reply.rs struct SyncReply
 
@@ -42,6 +49,20 @@ impl IntoMessage for DestroyObjectReply { open spec fn min_minor() -> u32 { 0 } 
 impl IntoMessage for CreateServiceReply { open spec fn min_minor() -> u32 { 0 } open spec fn allowed_for(&self, receiver: &ConnectionState) -> bool { true } }
 impl IntoMessage for DestroyServiceReply { open spec fn min_minor() -> u32 { 0 } open spec fn allowed_for(&self, receiver: &ConnectionState) -> bool { true } }
 impl IntoMessage for QueryServiceVersionReply { open spec fn min_minor() -> u32 { 0 } open spec fn allowed_for(&self, receiver: &ConnectionState) -> bool { true } }
+impl IntoMessage for QueryServiceInfoReply { open spec fn min_minor() -> u32 { 17 } open spec fn allowed_for(&self, receiver: &ConnectionState) -> bool { true } }
+#[verifier::external_body]
+#[derive(Debug)]
+pub struct SerializeError { _p: () }
+impl SerializedValue {
+    // `SerializedValue::serialize(value: impl SerializePrimary)` instantiated at ServiceInfo. ASSUMED: serialising a ServiceInfo
+    // (a u32 and two optional fields, nesting depth 1) cannot fail -- the handler `expect`s it
+    #[verifier::external_body]
+    pub fn serialize(value: ServiceInfo) -> (r: Result<Self, SerializeError>)
+        ensures r is Ok,
+    { unimplemented!() }
+}
+impl IntoMessage for QueryIntrospectionReply { open spec fn min_minor() -> u32 { 17 } open spec fn allowed_for(&self, receiver: &ConnectionState) -> bool { true } }
+opaque!(TypeId);
 impl IntoMessage for SyncReply { open spec fn min_minor() -> u32 { 0 } open spec fn allowed_for(&self, receiver: &ConnectionState) -> bool { true } }
 impl ServiceInfo {
     #[verifier::external_body]
@@ -792,6 +813,34 @@ impl Broker {
         ensures
             final(self).unchanged(old(self)), final(self).stat_same(old(self)),
             !old(self).conns@.contains_key(*id) ==> r is Ok,
+    //@end
+
+    // 1.17 gate: an older connection using QueryServiceInfo is closed (Err); the table never changes
+    //@fn broker/src/broker.rs Broker::query_service_info
+        ensures
+            final(self).unchanged(old(self)), final(self).stat_same(old(self)),
+            !old(self).conns@.contains_key(*id) ==> r is Ok,
+            (old(self).conns@.contains_key(*id) && ProtocolVersion::lex_cmp(old(self).conns@[*id].version, ProtocolVersion::V1_17) == core::cmp::Ordering::Less) ==> r is Err,
+    //@end
+
+    // the broker built WITHOUT the `introspection` feature (second definitions in the source): the 1.17 gate is still enforced, every
+    // query is answered `Unavailable`, an introspection reply from a client is a protocol violation; no table changes
+    //@fn broker/src/broker.rs Broker::register_introspection nth=1
+        ensures
+            !self.conns@.contains_key(*id) ==> r is Ok,
+            self.conns@.contains_key(*id) ==> (r is Err) == (ProtocolVersion::lex_cmp(self.conns@[*id].version, ProtocolVersion::V1_17) == core::cmp::Ordering::Less),
+    //@end
+
+    //@fn broker/src/broker.rs Broker::query_introspection nth=1
+        ensures
+            final(self).unchanged(old(self)), final(self).stat_same(old(self)),
+            !old(self).conns@.contains_key(*id) ==> r is Ok,
+            (old(self).conns@.contains_key(*id) && ProtocolVersion::lex_cmp(old(self).conns@[*id].version, ProtocolVersion::V1_17) == core::cmp::Ordering::Less) ==> r is Err,
+    //@end
+
+    //@fn broker/src/broker.rs Broker::query_introspection_reply nth=1
+        ensures
+            final(self).unchanged(old(self)), final(self).stat_same(old(self)), r is Err,
     //@end
 
     //@fn broker/src/broker.rs Broker::sync
